@@ -149,8 +149,13 @@ def show_real(ch):
 
 
 def show_info(ci, ids):
-    """a stored chunk_info (metadata json) in the model driver's format"""
-    return "[%s sub=%s]" % (show_base(ci["start"], ci["end"], ci["run_id"], ids), show_odict(ci.get("subruns")))
+    """a stored chunk_info (metadata json) in the model driver's format.  The json is written with sorted keys, so the
+    order of the dict is the order of the run-id strings: canonicalised to the order of the span starts (what the
+    loader's `subruns` setter restores)"""
+    sub = ci.get("subruns")
+    if sub is not None:
+        sub = dict(sorted(sub.items(), key=lambda kv: kv[1]["start"]))
+    return "[%s sub=%s]" % (show_base(ci["start"], ci["end"], ci["run_id"], ids), show_odict(sub))
 
 
 def parse_annot_str(s):
